@@ -158,6 +158,12 @@ func TestC15(t *testing.T) {
 					x, err := c15Attach(rc, p.Proto)
 					s.Err, s.OK = errStr(err), err == nil
 					s.NotFound = errors.Is(err, plugin.ErrProcessNotFound)
+					if err != nil && x != nil && x.c != nil {
+						// a refused reattach stays refused when the same client is asked again
+						_, err2 := x.c.Start()
+						s.RetryOK, s.RetryErr = err2 == nil, errStr(err2)
+						s.RetryProtocol = string(x.c.Protocol())
+					}
 					if err == nil {
 						clients = append(clients, x)
 						m, err := x.cli.Do("tag")
